@@ -83,3 +83,4 @@ func (r *Rand) FloatBits() float64 {
 		}
 	}
 }
+
